@@ -656,6 +656,11 @@ func (c *wsConn) removeCount(s *Subscription, direct bool, sent bool, count int,
 	}
 
 	if direct {
+		// A denied re-access may already have removed all direct
+		// subscriptions, including the one a failing request gives back.
+		if count > s.direct {
+			count = s.direct
+		}
 		s.direct -= count
 	} else {
 		s.indirect -= count
